@@ -221,6 +221,21 @@ def gen_case(rng, force=None):
     return case
 
 
+def gen_strip_case(rng):
+    """a strip longer than the 100-window block of the 3x3 median filter (median_filter works by blocks of 100 x 100
+    windows): noisy radiometry, so that the arms depend on every filtered value, columns / rows 99..104 included"""
+    short, long_ = rng.randrange(3, 6), rng.randrange(103, 131)
+    nr, nc = (short, long_) if rng.random() < 0.6 else (long_, short)
+    amp = rng.choice([8, 12])   # differences of filtered values around the intensity threshold below
+    left = [[rng.randrange(0, amp) for _ in range(nc)] for _ in range(nr)]
+    right = [[left[r][min(nc - 1, c + 1)] + rng.randrange(0, 3) for c in range(nc)] for r in range(nr)]
+    m_l, kml = gen_mask(rng, nr, nc, [1, 2, 3]) if rng.random() < 0.4 else (None, "none")
+    return dict(nr=nr, nc=nc, left=left, right=right, mask_left=m_l, mask_right=None, valid=0, nodata=1,
+                method="sad", window=1, subpix=1, dmin=-1, dmax=0, distance=rng.choice([2, 3, 4]),
+                intensity=[rng.choice([2, 3]), 1],
+                kinds=dict(left="noise-strip", right="shifted-left", mask_left=kml, mask_right="none"))
+
+
 # ---------------------------------------------------------------- implementation side
 
 
@@ -736,6 +751,8 @@ def run(ctx):
                 force = {"distance": rng.choice([300, 32767, 32768, 40000, 65536, 70000, 2 ** 31 - 1]),
                          "window": 1, "method": "sad"}
             cases.append(gen_case(rng, force))
+        for _ in range(6 if quick else 60):
+            cases.append(gen_strip_case(rng))
     batch = 50
     for start in range(0, len(cases), batch):
         chunk = []
